@@ -436,6 +436,23 @@ def gen_ttl_term(rng, V, prefixes, obj=False, p_tagged=0.0):
     return ("iri", rng.choice(["http://e/%s%d" % (rng.choice("spo"), rng.randrange(V)), "https://e/x?y=1&z", "http://e/#frag"]))
 
 
+def gen_ttl_comp(rng, V):
+    r = rng.random()
+    if r < 0.5:
+        return ("iri", "http://e/%s%d" % (rng.choice("spo"), rng.randrange(V)))
+    if r < 0.7:
+        return ("bn", "b%d" % rng.randrange(V))
+    body = [("p", c) for c in rng.choice(["x", "l l", "a.b", "v;1", "é"])]
+    return ("lit", body, rng.choice([None, None, ("dt", "http://dt/x")]))
+
+
+def gen_ttl_quoted(rng, V):
+    s = gen_ttl_comp(rng, V)
+    if s[0] == "lit":
+        s = ("bn", "b0")
+    return ("qt", s, ("iri", "http://e/p%d" % rng.randrange(V)), gen_ttl_comp(rng, V))
+
+
 def gen_ttl_doc(rng, n, p_tagged=0.0):
     V = max(3, min(30, n // 3 + 3))
     items = []
@@ -457,8 +474,16 @@ def gen_ttl_doc(rng, n, p_tagged=0.0):
             items.append(["list", gen_ttl_term(rng, V, prefixes), pos])
         else:
             pad = gen_pad(rng, plain=0.85, seps=(" ", "\t", "  "), w3s=(" ", "  ", ""))
-            items.append(["stmt", pad, gen_ttl_term(rng, V, prefixes), gen_ttl_term(rng, max(2, V // 6), prefixes),
-                          gen_ttl_term(rng, V, prefixes, True, p_tagged), None])
+            st = ["stmt", pad, gen_ttl_term(rng, V, prefixes), gen_ttl_term(rng, max(2, V // 6), prefixes),
+                  gen_ttl_term(rng, V, prefixes, True, p_tagged), None]
+            q = rng.random()
+            if q < 0.08:        # quoted triple as subject and/or object (the statement then goes through encode_term_star)
+                st[2] = gen_ttl_quoted(rng, V)
+                if st[4][0] == "lit" and rng.random() < 0.15:
+                    st[4] = ("lit", [("p", " ")] + list(st[4][1]), st[4][2])      # re-cleaned literal: known class
+            elif q < 0.12:
+                st[4] = gen_ttl_quoted(rng, V)
+            items.append(st)
     return items
 
 
@@ -544,10 +569,12 @@ def has_hash(op):
 
 def classes_of(op, flags):
     """known classes (ids) the document load `op` falls in; flags come from the Coq classifiers"""
-    n3k, recl, n3lit, n3hash = flags
+    n3k, recl, n3lit, n3hash, ttlrecl = flags
     fmt = op[1]
     out = []
     if fmt in ("nt", "nq") and recl:
+        out.append("C13-literal-recleaned")
+    if fmt == "ttl" and ttlrecl:
         out.append("C13-literal-recleaned")
     if fmt == "n3":
         if n3k:
